@@ -489,8 +489,38 @@ def law_sweep(ctx, mc, atm, only=None):
                     bad("integrate_column:axis", f"lane {int(j)} of an array of shape {tuple(shape)} along axis {use_axis}: {float(rf[j])!r}, "
                         f"integral of that lane {float(exact_trapz(lane, xs))!r}", dict(case, lane=int(j)))
 
+    def nd_default_spacing():
+        # no coordinates given: unit spacing along the chosen axis of an array of ANY shape, the default axis (0) included
+        for c in range(ctx.n(24, 240)):
+            rank = 1 + c % 4
+            shape = [int(rng.integers(2, 5)) for _ in range(rank)]
+            axis = c % rank
+            shape[axis] = int(rng.choice([2, 3, 7, 40]))
+            Y = rng.uniform(-5, 5, shape)
+            kw = {} if (axis == 0 and c % 2) else {"axis": (axis - rank if c % 3 == 0 else axis)}
+            case = {"shape": shape, "axis": kw.get("axis", "default"), "y": small(Y), "x": None}
+            res = np.asarray(call(mc.integrate_column, Y, **kw))
+            want_shape = tuple(s_ for j, s_ in enumerate(shape) if j != axis)
+            evals[0] += 1
+            if res.shape != want_shape:
+                bad("integrate_column:axis-default-spacing", f"without coordinates: result shape {res.shape} for input {tuple(shape)} along "
+                    f"axis {kw.get('axis', 'default (0)')}, expected {want_shape}", case)
+                continue
+            xs = np.arange(shape[axis], dtype=float)
+            Ym = np.moveaxis(Y, axis, -1).reshape(-1, shape[axis])
+            rf = res.reshape(-1)
+            for j in range(rf.size):
+                lane = Ym[j]
+                tol = (shape[axis] + 16) * EPS * mag(lane, xs) + 1e-300
+                if not abs(Fraction(float(rf[j])) - exact_trapz(lane, xs)) <= Fraction(tol):
+                    bad("integrate_column:axis-default-spacing", f"without coordinates: lane {int(j)} of an array of shape {tuple(shape)} along "
+                        f"axis {kw.get('axis', 'default (0)')}: {float(rf[j])!r}, unit-spaced integral of that lane "
+                        f"{float(exact_trapz(lane, xs))!r}", dict(case, lane=int(j)))
+                    break
+
     guarded("integrate_column:laws", column_laws)
     guarded("integrate_column:axis", nd_laws)
+    guarded("integrate_column:axis-default-spacing", nd_default_spacing)
 
     # ---- integrate_water_vapor ----------------------------------------------------------------------------------
     g = float(constants.earth_standard_gravity)
@@ -862,7 +892,32 @@ def law_sweep(ctx, mc, atm, only=None):
         except ValueError:
             pass
 
+    def p2h_default_temperature():
+        # no temperature given = the standard atmosphere AT THE PRESSURES HANDED IN, also when the caller refills one work
+        # buffer in place between the calls (a retrieval loop) or changes the unit of the same array in place
+        buf = np.empty(30)
+        for step in range(4):
+            prof = pressure_grid(rng, 30, top=float([100e2, 10e2, 300e2, 50e2][step]))
+            buf[:] = prof
+            z_def = np.asarray(call(atm.pressure2height, buf))
+            z_ref = np.asarray(call(atm.pressure2height, prof.copy(), np.asarray(call(atm.standard_atmosphere, prof.copy(), coordinates="pressure"))))
+            evals[0] += 2
+            if z_def.shape != z_ref.shape or not np.all(np.abs(z_def - z_ref) <= 1e-9 * (1 + np.abs(z_ref))):
+                bad("pressure2height:default-temperature", f"pressure2height(p) on a work buffer refilled in place (profile {step + 1} of 4) gives "
+                    f"{small(z_def)}, with the standard-atmosphere temperatures of these pressures given explicitly {small(z_ref)}",
+                    {"step": step, "p": small(prof)})
+                break
+        hpa = np.array([1000.0, 850.0, 500.0, 200.0, 50.0])
+        first = np.asarray(call(atm.pressure2height, hpa))          # taken for Pa as handed in
+        hpa *= 100.0
+        z_def = np.asarray(call(atm.pressure2height, hpa))
+        z_ref = np.asarray(call(atm.pressure2height, hpa.copy(), np.asarray(call(atm.standard_atmosphere, hpa.copy(), coordinates="pressure"))))
+        if not np.all(np.abs(z_def - z_ref) <= 1e-9 * (1 + np.abs(z_ref))):
+            bad("pressure2height:default-temperature", f"pressure2height(p) after `p *= 100` on the same array gives {small(z_def)}, with the "
+                f"standard-atmosphere temperatures given explicitly {small(z_ref)}", {"p": small(hpa)})
+
     guarded("pressure2height:laws", p2h_laws)
+    guarded("pressure2height:default-temperature", p2h_default_temperature)
     guarded("standard_atmosphere:laws", isa_laws)
     return out, evals[0]
 
